@@ -9,13 +9,14 @@
 (* without entering a hidden or __pycache__ directory and that import a v1  *)
 (* name, and leave every other file byte-for-byte alone.                    *)
 (***************************************************************************)
-EXTENDS MC_WalkOps
+EXTENDS MC_WalkOps, FiniteSetsExt
 
 CONSTANT MaxFiles
 
 VARIABLES tree, done, rewritten
 
-Init == /\ tree \in {t \in SUBSET AllFiles : Cardinality(t) <= MaxFiles /\ Cardinality(t) >= 1}
+\* (k-subsets, not a filter over SUBSET AllFiles: 2^56 candidates)
+Init == /\ tree \in UNION {kSubset(k, AllFiles) : k \in 1..MaxFiles}
         /\ done = FALSE
         /\ rewritten = {}
 
